@@ -243,6 +243,26 @@ def run_shard(ctx):
             d = call(u.urlsafe_b64decode, enc)
             if not d.ok or d.value != data:
                 ctx.violation("roundtrip-differs", f"urlsafe_b64decode(urlsafe_b64encode(x)) != x for {n} octets: " + (repr(d.exc) if not d.ok else "other octets"), {"f": "long", "n": n})
+            # ... and strictness does not end where a decoder might start working in pieces: one non-alphabet character anywhere in a long input
+            if n <= 2 ** 24 + 2:
+                for pos in sorted({0, 1, 4095, 65535, 65536, len(enc) // 2, 2 ** 20 - 1, 2 ** 20, 2 ** 20 + 1, 2 ** 21, len(enc) - 2 ** 20 - 1, len(enc) - 5, len(enc) - 1}):
+                    if not 0 <= pos < len(enc):
+                        continue
+                    for bad in (b"+", b"/", b"=", b" ", b"\n", b"*", b"\x80", b"."):
+                        if bad == b"=" and pos >= len(enc) - 2:
+                            continue   # trailing '=' is left open
+                        ctx.ev()
+                        t = enc[:pos] + bad + enc[pos + 1:]
+                        o2 = call(u.urlsafe_b64decode, t)
+                        ctx.count("long_inputs_with_a_bad_character")
+                        ctx.nontrivial(("long-bad", n, pos, bad))
+                        if o2.ok:
+                            ctx.violation("accepts-nonalphabet:long-input", f"urlsafe_b64decode accepted a {len(t)}-character input with {bad!r} at position {pos}",
+                                          {"f": "long-bad", "n": n, "pos": pos, "bad": bad.hex()})
+                        elif not isinstance(o2.exc, ValueError):
+                            ctx.violation(f"wrong-exception:{o2.etype}", f"urlsafe_b64decode of a {len(t)}-character input with {bad!r} at {pos} raised {o2.exc!r}",
+                                          {"f": "long-bad", "n": n, "pos": pos, "bad": bad.hex()})
+                        del t
             del data, enc
     # big but shallow headers (many small containers, braces inside strings): size is no reason to refuse a header
     for name, h in (("300-objects", {"x5c": ["a"], "list": [{"i": i} for i in range(300)]}), ("matrix", {"m": [[i, i + 1] for i in range(1000)]}),
